@@ -167,8 +167,7 @@ Definition format_cells (size fi : Z) (micro : bool) (i : Z) : list (Z * Z * boo
 
 Definition format_body (fi : Z) (micro : bool) :=
   fun (i : Z) (st' : Z * list (list Z) * Z) => let '(hoffset, matrix, voffset) := st' in
-       do t'3 <- py_shiftr fi i;
-       let vbit := Z.land t'3 1 in
+       let vbit := Z.land (Z.shiftr fi i) 1 in
        do t'4 <- py_shiftr fi (14 - i);
        let hbit := Z.land t'4 1 in
        let '(hoffset0, voffset0) :=
